@@ -181,3 +181,20 @@ func (r *Rule) VerifDump() *VerifRuleDump {
 	d.Chain = r.Chain.VerifDump()
 	return d
 }
+
+// VerifAction is one compiled action of a rule: its name, its type and the action object itself
+// (the conformance harness reads the parsed argument off it).
+type VerifAction struct {
+	Name string
+	Type int
+	Fn   any
+}
+
+// VerifActions returns the compiled actions of this rule (one chain link) in evaluation order.
+func (r *Rule) VerifActions() []VerifAction {
+	out := make([]VerifAction, 0, len(r.actions))
+	for _, a := range r.actions {
+		out = append(out, VerifAction{Name: a.Name, Type: int(a.Function.Type()), Fn: a.Function})
+	}
+	return out
+}
